@@ -100,6 +100,41 @@ OracleInv ==
          /\ pos => MinHops(NI, D, WT, s, t) = MinHopsByPaths(NI, inp, s, t)
          /\ (D[s][t] < INF) <=> Reaches(NI, AdjOfLen(NI, inp), s, t)
 
+(* the cheap operators used for inputs beyond n = 12 (Distance.tla, "cheap          *)
+(* equivalents") decide the same as the L0 definitions: reachable sets, hop        *)
+(* distances by BFS levels, "hop counts of minimum walks = {distance}" for unit    *)
+(* lengths, the one-pass characterisation of a distance row (the true row passes;  *)
+(* n = 3: NO other row over 0..5, INF passes; n > 3: no single-entry change        *)
+(* passes), the hop-count sets by increasing distance, the 10^-9 mean inverse.     *)
+FastOracleInv ==
+  (Is("floyd") /\ st.pc = "for" /\ st.k = 1) =>
+    LET n == NI
+        D == Dist(n, inp)  Out == OutNb(n, inp)  In == InNb(n, inp)
+        HL == HopLen(n, inp)  HD == Dist(n, HL)  HWT == WalkTab(n, HL)
+        WT == WalkTab(n, inp)
+        pos == PosLen(n, inp)
+        vals == (0..5) \cup {INF}
+        np == n * (n - 1)
+        fin == {p \in OffPairs(n) : D[p[1]][p[2]] < INF}
+        e6 == ToQ6(Sum(fin, LAMBDA p : 27720 \div D[p[1]][p[2]]), 27720 * np)
+    IN /\ \A s \in 1..n : ReachFrom(Out, s) = {t \in 1..n : D[s][t] < INF}
+       /\ HopDistFast(n, inp) = HD
+       /\ IsHopLen(n, HL) /\ (IsHopLen(n, inp) <=> inp = HL)
+       /\ \A s, t \in 1..n : HD[s][t] < INF => MinHops(n, HD, HWT, s, t) = {HD[s][t]}
+       /\ pos =>
+            /\ IsDistMat(n, inp, D)
+            /\ \A s \in 1..n :
+                 IF n = 3
+                 THEN \A row \in [1..n -> vals] : IsDistRow(n, inp, In, s, row) => row = D[s]
+                 ELSE \A j \in 1..n, v \in vals :
+                        v # D[s][j] => ~IsDistRow(n, inp, In, s, [D[s] EXCEPT ![j] = v])
+            /\ \A s, t \in 1..n : MinHopsRow(n, inp, In, s, D[s])[t] = MinHops(n, D, WT, s, t)
+            /\ MeanInvBigInRange(n, D)
+            /\ MeanInvBigOK(e6, n, D) \/ MeanInvBigOK(e6 + 1, n, D)
+            /\ ~MeanInvBigOK(e6 - 2, n, D) /\ ~MeanInvBigOK(e6 + 3, n, D)
+            /\ \A o \in {e6 - 2, e6 - 1, e6, e6 + 1, e6 + 2, e6 + 3} :
+                 MeanInvBigOK(o, n, D) => MeanInvOK(o, n, D)
+
 (* ------------------------------------------------------------------ dijkstra *)
 DjLm == LenOfAdj(NI, inp)
 HopsOK(n, Lm, D, B, r, w) ==          \* "number of edges of some minimum-length path"
